@@ -540,8 +540,10 @@ def nested_family():
     estimate, a lower estimate) is a decision of its own for every (outer, inner, context) triple."""
     x, y = var('x'), var('y')
     inners = [['max', [x, y]], ['min', [x, y]], ['abs', x], ['-', ['abs', x], num(1)], ['neg', ['min', [x, y]]],
-              ['-', ['max', [x, num(0.5)]], y], ['abs', ['-', x, y]]]
-    outers = [lambda e: ['abs', e], lambda e: ['max', [e, num(0.5)]], lambda e: ['min', [e, num(1)]], lambda e: ['neg', ['abs', e]],
+              ['-', ['max', [x, num(0.5)]], y], ['abs', ['-', x, y]],
+              # an operand the ranges prove dominated (and that the compiler prunes) in front of / between the kept ones
+              ['max', [num(-9), x, y]], ['min', [num(9), x, y]], ['max', [x, num(-9), y]], ['min', [x, y, num(9)]]]
+    outers = [lambda e: e, lambda e: ['abs', e], lambda e: ['max', [e, num(0.5)]], lambda e: ['min', [e, num(1)]], lambda e: ['neg', ['abs', e]],
               lambda e: ['*', num(-2), ['abs', e]],
               # sign-changing and scaling wrappers directly above a piecewise block: division and multiplication by
               # negative / positive constants on either side, unary minus
